@@ -17,7 +17,7 @@ MOD = __name__
 
 RULE_TEXT = (
     "Exhaustive part: two components (identifier and dotted names) x every declaration form (none, [n], component n, "
-    "component [n], [n] as A, component [n] as A) per component x every arrow form (6) x every reference form per "
+    "component [n], [n] as A, component [n] as A, component n as A) per component x every arrow form (6) x every reference form per "
     "endpoint (bracketed, bare, alias) x declaration-before/after-use, plus the three-line alias/name mixtures. Random "
     "part: Hypothesis relation over 1-8 components (identifier, dotted, or blank-containing bracketed names with alias), "
     "random declaration, reference and arrow forms, random line order, 1-3 blanks between tokens, noise text outside the "
@@ -29,12 +29,12 @@ RULE_TEXT = (
 )
 ASSUMPTIONS = [
     "lines carry no leading/trailing blanks; one diagram block per file",
-    "aliases only on the bracketed declaration forms (the documented alias form), alias tokens disjoint from component names",
+    "alias tokens are disjoint from the component names of the same diagram",
     "names containing blanks are declared with an alias and referenced through it (as in the repository's fixtures)",
 ]
 
 ARROWS = ["-->", "->", "<--", "<-", "-uses->", "<-uses-"]
-DECLS = ["none", "br", "comp", "comp_br", "br_as", "comp_br_as"]
+DECLS = ["none", "br", "comp", "comp_br", "br_as", "comp_br_as", "comp_as"]
 
 
 def render_decl(name, form, alias, sp=" "):
@@ -48,6 +48,8 @@ def render_decl(name, form, alias, sp=" "):
         return f"[{name}]{sp}as{sp}{alias}"
     if form == "comp_br_as":
         return f"component{sp}[{name}]{sp}as{sp}{alias}"
+    if form == "comp_as":
+        return f"component{sp}{name}{sp}as{sp}{alias}"
     return None
 
 
